@@ -3,8 +3,9 @@
    A trace belongs to one application and one terminal width:
      event 1           op = "config":  cfg, T (the driver built the application from cfg)
      op = "page"       p (target path), obs = [kind ("ok"|"exc"), cls, lines] of ApplicationHelp / CommandHelp rendered
-                       on a buffered I/O of width T, runA (whether the A-layer is compared as well - DRIFT only)
-     op = "request"    i, j (positions of the command / sub-command the request names, 0 = none),
+                       on a buffered I/O of width T, runA (whether the A-layer is compared as well - DRIFT only);
+                       T # 0 on a page event: the same help object rendered once more, on another I/O of that width
+     op = "request"    q (path of positions of the command the request names, <<>> = none),
                        a = observation of `help <path>`, b = observation of `<path> --help` (or -h), each on a freshly
                        built application with COLUMNS = T: [kind ("ok" = status 0 | "status" | "exc"), cls, lines]
    Every event carries all fields (neutral values where they do not apply).
@@ -24,14 +25,15 @@ StyleTags == {"b", "u", "c1", "c2", "info", "comment", "question", "error"}
 
 \* ---- harness sanity: a page can be read unambiguously - no piece of running text, of a visible name or of a label can
 \*      be taken for the name of a hidden / disabled command (the wrapper may cut any of them into pieces)
-AllCmds(c) == Els(c.cmds) \cup UNION {Els(x.subs) : x \in Els(c.cmds)}
+AllCmds(c) == Below(c.cmds)
 Secret(x) == x.hidden \/ ~x.enabled
 Words(c) ==
   LET Txt(x) == Els(x.desc) \cup UNION {Els(par) : par \in Els(x.help)}
       AO(x) == UNION {{a.name} \cup Els(a.desc) \cup Els(a.dflt) : a \in Els(x.args)}
-               \cup UNION {{o.long} \cup Els(o.desc) \cup Els(o.dflt) : o \in Els(x.opts)}
+               \cup UNION {{o.long, o.vn} \cup Els(o.desc) \cup Els(o.dflt) : o \in Els(x.opts)}
   IN {c.app, c.ver} \cup Els(c.display) \cup UNION {Els(par) : par \in Els(c.help)}
-     \cup UNION {{o.long} \cup Els(o.desc) \cup Els(o.dflt) : o \in Els(c.gopts)}
+     \cup UNION {{a.name} \cup Els(a.desc) \cup Els(a.dflt) : a \in Els(c.gargs)}
+     \cup UNION {{o.long, o.vn} \cup Els(o.desc) \cup Els(o.dflt) : o \in Els(c.gopts)}
      \cup UNION {Txt(x) \cup AO(x) : x \in AllCmds(c)}
      \cup UNION {{x.name} \cup Els(x.aliases) : x \in {y \in AllCmds(c) : ~Secret(y)}}
      \cup {"aliases:", "version", "(default:", "(multiple", "values", "allowed)", "USAGE", "ARGUMENTS", "COMMANDS",
@@ -55,39 +57,43 @@ HiddenKey(c, p, L) ==
   IN IF s # {} /\ s \subseteq hd THEN "hidden-default" ELSE ""
 
 \* the A-layer's page
-AMatches(c, p, o) ==
-  LET r == PageOf(c, p, tw)
+AMatchesAt(c, p, o, w) ==
+  LET r == PageOf(c, p, w)
   IN IF r.ok THEN o.kind = "ok" /\ o.lines = r.lines ELSE o.kind # "ok"
+AMatches(c, p, o) == AMatchesAt(c, p, o, tw)
 
 PageClauses(c, e) ==
   LET p == e.p
       L == e.obs.lines
-  IN /\ Check(tid, l, "P.succeeds", TagKey(c, p, e.obs.cls), Pre(c, p, tw) => e.obs.kind = "ok")
+      w == IF e.T = 0 THEN tw ELSE e.T          \* a page rendered at a width of its own (same help object, second I/O)
+  IN /\ Check(tid, l, "P.succeeds", TagKey(c, p, e.obs.cls), Pre(c, p, w) => e.obs.kind = "ok")
      /\ IF e.obs.kind # "ok" THEN TRUE
         ELSE /\ Check(tid, l, "P.lists.args", ArgKey(c, p, L), MissingArgs(c, p, L) = {})
              /\ Check(tid, l, "P.lists.opts", "", MissingOpts(c, p, L) = {})
              /\ Check(tid, l, "P.lists.cmds", "", MissingCmds(c, p, L) = {})
              /\ Check(tid, l, "P.hidden", HiddenKey(c, p, L), Shown(c, p, L) = {})
-             /\ Check(tid, l, "P.fits", "", Pre(c, p, tw) => Fits(L, tw))
-     /\ IF e.runA THEN Note(tid, l, "A.lines", AMatches(c, p, e.obs)) ELSE TRUE
+             /\ Check(tid, l, "P.fits", "", Pre(c, p, w) => Fits(L, w))
+     /\ IF e.runA THEN Note(tid, l, "A.lines", AMatchesAt(c, p, e.obs, w)) ELSE TRUE
 
 \* the pages a request for (i, j) may show: the named command's, or - when it has default sub-commands - one of theirs
 \* (which of them is the resolver's business, property C03)
-Admissible(c, i, j) ==
-  IF i = 0 THEN {<<>>}
-  ELSE IF j > 0 THEN {<<i, j>>}
-  ELSE LET ds == {n \in 1..Len(c.cmds[i].subs) : c.cmds[i].subs[n].enabled /\ c.cmds[i].subs[n].dflt}
-       IN IF ds = {} THEN {<<i>>} ELSE {<<i, n>> : n \in ds}
+Admissible(c, q) ==
+  IF q = <<>> THEN {<<>>}
+  ELSE LET subs == CmdAt(c, q).subs
+           ds == {n \in 1..Len(subs) : subs[n].enabled /\ subs[n].dflt}
+       IN IF ds = {} THEN {q} ELSE {Append(q, n) : n \in ds}
 PageOK(c, p, L) == Complete(c, p, L) /\ Shown(c, p, L) = {} /\ (Pre(c, p, tw) => Fits(L, tw))
+Builtin(c, q) == IF q = <<>> THEN FALSE ELSE c.cmds[q[1]].builtin
 ReqKey(c, e) ==
-  IF e.i = 0 THEN ""
-  ELSE IF c.cmds[e.i].builtin THEN "builtin-help"
-  ELSE IF \E p \in Admissible(c, e.i, e.j) : TaggedPage(c, p) THEN "style-tag-name" ELSE ""
+  IF Builtin(c, e.q) THEN "builtin-help"
+  ELSE IF \E p \in Admissible(c, e.q) : TaggedPage(c, p) THEN "style-tag-name" ELSE ""
 ObsKey(o) == IF o.kind = "ok" THEN "" ELSE o.cls
 
 RequestClauses(c, e) ==
-  LET adm == Admissible(c, e.i, e.j)
-      pre == \A p \in adm : Pre(c, p, tw)
+  LET adm == Admissible(c, e.q)
+      \* (known finding C13-help-help: `help --help` shows the application page - that one has to fit as well then)
+      shown == IF Builtin(c, e.q) THEN adm \cup {<<>>} ELSE adm
+      pre == \A p \in shown : Pre(c, p, tw)
       Shows(o) == o.kind = "ok" => \E p \in adm : PageOK(c, p, o.lines)
       tagged == \E p \in adm : TaggedPage(c, p)
       cls == ObsKey(IF e.a.kind = "ok" THEN e.b ELSE e.a)
@@ -97,8 +103,8 @@ RequestClauses(c, e) ==
      /\ Check(tid, l, "P.request.page", ReqKey(c, e), Shows(e.a) /\ Shows(e.b))
      /\ IF e.runA
         THEN Note(tid, l, "A.request",
-                  IF RequestFails(c, e.i, e.j) THEN e.a.kind # "ok" /\ e.b.kind # "ok"
-                  ELSE AMatches(c, Resolve(c, e.i, e.j).p, e.a))
+                  IF RequestFails(c, e.q) THEN e.a.kind # "ok" /\ e.b.kind # "ok"
+                  ELSE AMatches(c, Resolve(c, e.q).p, e.a))
         ELSE TRUE
 
 TConfig == /\ l = 1 /\ l <= Len(Tr) /\ Ev.op = "config"
